@@ -208,7 +208,7 @@ var stringType = reflect.TypeOf("")
 
 var newMap = Func(func(a Arguments) reflect.Value {
 	if a.NumOfArguments()%2 > 0 {
-		panic("map(): incomplete key-value pair (even number of arguments required)")
+		a.Panicf("map(): incomplete key-value pair (even number of arguments required)")
 	}
 
 	m := reflect.ValueOf(make(map[string]interface{}, a.NumOfArguments()/2))
